@@ -6,6 +6,7 @@ import NurbsVerif.Lemmas.VolLiftPoint
 import NurbsVerif.Model.Shape
 import NurbsVerif.Lemmas.InsertObjDir
 import NurbsVerif.Lemmas.InsertObjExamples
+import NurbsVerif.Lemmas.KnotRowsInsVol
 import Mathlib.Data.List.Perm.Basic
 
 /-!
@@ -554,5 +555,94 @@ example : CallOk 3 exVolQ [some (1/3), none, some (1/2)] [1, 0, 1] (1/10000000) 
 example : (insertKnot exVolQ [some (1/3), none, some (1/2)] [1, 0, 2] (1/10000000) true).2 = false ∧
     (insertKnot exVolQ [some (1/3), none, some (1/2)] [1, 0, 2] (1/10000000) true).1.kvs
       = [[0,0,1/3,1,1], [0,0,1,1], [0,0,0,1/2,1,1,1]] := by decide +kernel
+
+/-! ## (R) The LIST-OF-ROWS branch of `helpers.knot_insertion` and the volume gather / scatter as coded
+
+For a volume `operations.insert_knot` does not push one iso-curve after the other through the helper: it
+builds `cpt2d` (one ROW per control-point index of the direction, holding the whole layer of points with
+that index), calls `helpers.knot_insertion` ONCE, and the helper – seeing that `ctrlpts[0][0]` is not a
+number – blends every point of a row: `temp[i][idx][:] = …`.  `knotInsertionRows` is that branch (same
+α's as `knotInsertion`, output index by index), `volRows` / `volUnrows` / `mapVolRows` are the gather and
+the "flatten" loops with the index expressions of the code, `insertKnotVolRows` is one direction of the
+operation computed this way; all of them are run against the real helper / operation by the
+correspondence check (`rowsins`, `rowsvol … I`).  `isoCol c R` is iso-curve number `c` of a list of rows
+(the `c`-th point of every row). -/
+
+/-- **Every iso-curve of the rows branch is A5.1 of that iso-curve** – for every list of rows (even a
+    ragged one), every column index, all arguments: no hypothesis. -/
+theorem knotInsertionRows_isocurve (c p : ℕ) (U : ℕ → K) (R : List (List (List K))) (u : K) (r s k : ℕ) :
+    isoCol c (knotInsertionRows p U R u r s k) = knotInsertion p U (isoCol c R) u r s k :=
+  Rows.isoCol_knotInsertionRows c p U R u r s k
+
+/-- **`knot_insertion` on a list of rows = transpose, `knotInsertion` on every iso-curve, transpose back**:
+    for rectangular rows (`m` points each) and a span inside the net, the result is the rectangular list
+    of `#rows + r` rows whose `c`-th iso-curve is `knotInsertion` of the `c`-th iso-curve of the input. -/
+theorem knotInsertionRows_is_transposed_knotInsertion (p : ℕ) (U : ℕ → K) (R : List (List (List K))) (u : K)
+    (r s k m : ℕ) (hR : Rows.RectW m R) (hpk : p ≤ k) (hk : k < R.length) (hrs : r + s ≤ p) :
+    Rows.RectW m (knotInsertionRows p U R u r s k) ∧
+    knotInsertionRows p U R u r s k
+      = Rows.ofCols (R.length + r) m (fun c => knotInsertion p U (isoCol c R) u r s k) :=
+  ⟨Rows.knotInsertionRows_rect p U R u r s k m hR hpk hk hrs,
+   Rows.knotInsertionRows_eq_ofCols p U R u r s k m hR hpk hk hrs⟩
+
+/-- **The volume gather / ONE helper call on the rows / scatter of `operations.insert_knot` is exactly the
+    per-iso-curve model `mapVol`** (net and new size), in each of the three directions.  Rewriting with
+    this equation turns `insert_u/v/w_preserves_volume`, `insert_volume_net_size`, … into statements about
+    what the rows branch computes. -/
+theorem mapVolRows_insert_eq_mapVol (dir su sv sw p : ℕ) (U : ℕ → K) (P : List (List K)) (u : K) (r s k : ℕ)
+    (hsu : 0 < su) (hsv : 0 < sv) (hsw : 0 < sw) (hdir : dir < 3)
+    (hpk : p ≤ k) (hk : k < [su, sv, sw].getD dir 0) (hrs : r + s ≤ p) :
+    mapVolRows dir su sv sw P (fun R => knotInsertionRows p U R u r s k)
+      = mapVol dir su sv sw P (fun c => knotInsertion p U c u r s k) :=
+  Rows.mapVolRows_insert dir su sv sw p U P u r s k hsu hsv hsw hdir hpk hk hrs
+
+/-- **One direction of `operations.insert_knot` on a volume, computed through the list of rows as the code
+    does it, is what the model `insertKnotDir` returns** (so every object-level theorem of this file –
+    `insertKnot_preserves_volume`, `insert_call_sequence_preserves_volume`, … – is about the rows branch
+    too).  With `check = false` the count must fit (`r + s ≤ p`); with `check = true` both reject alike. -/
+theorem insertKnotVolRows_is_insertKnotDir (S : Shape K) (dir : ℕ) (u : K) (r : ℕ) (tol : K) (check : Bool)
+    (h3 : S.pdim = 3) (hdir : dir < 3) (hsu : 0 < S.size 0) (hsv : 0 < S.size 1) (hsw : 0 < S.size 2)
+    (hpn : S.deg dir + 1 ≤ S.size dir)
+    (hrs : check = false → r + findMultiplicity u (S.kv dir) tol ≤ S.deg dir) :
+    insertKnotVolRows S dir u r tol check = insertKnotDir S dir u r tol check :=
+  Rows.insertKnotVolRows_eq S dir u r tol check h3 hdir hsu hsv hsw hpn hrs
+
+/-- **Volumes, u direction, as the code computes it**: the net produced by gather / rows branch / scatter
+    evaluates, at every parameter triple of the domain and in every coordinate, to the point of the
+    original volume (`insert_u_preserves_volume` read through `mapVolRows_insert_eq_mapVol`). -/
+theorem insert_u_rows_preserves_volume (pu pv pw : ℕ) (Uul : List K) (Uv Uw : ℕ → K) (su sv sw : ℕ) (P : List (List K))
+    (ub u v w : K) (r s d j : ℕ) (hP : NetOk d P) (hlenP : P.length = su * sv * sw)
+    (hm : Monotone (fnOf Uul)) (hlen : Uul.length = su + pu + 1) (hpn : pu + 1 ≤ su)
+    (hub1 : fnOf Uul pu ≤ ub) (hub2 : ub < fnOf Uul su)
+    (hmult : ∀ x, findSpanLinear pu (fnOf Uul) su ub - s < x → x ≤ findSpanLinear pu (fnOf Uul) su ub → fnOf Uul x = ub)
+    (hr1 : 1 ≤ r) (hrs : r + s ≤ pu)
+    (hlo : fnOf Uul pu ≤ u) (hhi : u ≤ fnOf Uul su) (hlast : fnOf Uul (su - 1) < fnOf Uul su)
+    (hmv : Monotone Uv) (hpnv : pv + 1 ≤ sv) (hlov : Uv pv ≤ v)
+    (hmw : Monotone Uw) (hpnw : pw + 1 ≤ sw) (hlow : Uw pw ≤ w) :
+    (volumePoint pu pv pw (fnOf (knotInsertionKv Uul ub (findSpanLinear pu (fnOf Uul) su ub) r)) Uv Uw (su + r) sv sw
+        (mapVolRows 0 su sv sw P (fun R => knotInsertionRows pu (fnOf Uul) R ub r s (findSpanLinear pu (fnOf Uul) su ub))).1
+          u v w).getD j 0
+      = (volumePoint pu pv pw (fnOf Uul) Uv Uw su sv sw P u v w).getD j 0 :=
+  Rows.insertU_rows_preserves_volume pu pv pw Uul Uv Uw su sv sw P ub u v w r s d j hP hlenP hm hlen hpn hub1 hub2 hmult hr1 hrs
+    hlo hhi hlast hmv hpnv hlov hmw hpnw hlow
+
+/-! ### non-vacuity -/
+
+/-- two rows of three 1-D points each are rectangular … -/
+example : Rows.RectW 2 ([[[0],[10]], [[2],[12]], [[0],[16]]] : List (List (List ℚ))) := by
+  intro row hrow; simp at hrow; rcases hrow with h | h | h <;> simp [h]
+
+/-- … and the rows branch inserts 1/2 into both quadratic iso-curves at once -/
+example : knotInsertionRows 2 (fnOf ([0,0,0,1,1,1] : List ℚ)) [[[0],[10]], [[2],[12]], [[0],[16]]] (1/2) 1 0 2
+    = [[[0],[10]], [[1],[11]], [[1],[14]], [[0],[16]]] := by decide +kernel
+
+/-- the example volume, u direction: the operation computed through the rows = the per-iso-curve model -/
+example : insertKnotVolRows exVolQ 0 (1/3) 1 (1/10000000) true = insertKnotDir exVolQ 0 (1/3) 1 (1/10000000) true :=
+  insertKnotVolRows_is_insertKnotDir exVolQ 0 (1/3) 1 _ true rfl (by decide) (by decide) (by decide) (by decide)
+    (by decide) (by intro h; cases h)
+
+/-- … and the w direction (the rows are whole u-v layers), evaluated -/
+example : (insertKnotVolRows exVolQ 2 (1/4) 1 (1/10000000) true).map (fun T => (T.sizes, T.kv 2))
+    = some ([2, 2, 5], [0,0,0,1/4,1/2,1,1,1]) := by decide +kernel
 
 end C04
